@@ -57,7 +57,7 @@ mod pacing;
 #[cfg(feature = "verif-probe")]
 mod verif_probe;
 #[cfg(feature = "verif-probe")]
-pub use verif_probe::VerifProbe;
+pub use verif_probe::{VerifProbe, verif_rtt_estimator};
 
 mod packet_builder;
 use packet_builder::PacketBuilder;
